@@ -5,6 +5,7 @@ package lmd
 import (
 	"context"
 	"fmt"
+	"time"
 
 	"github.com/sasha-s/go-deadlock"
 )
@@ -41,4 +42,117 @@ func VerifRedistribute(online []bool, ownIdx int, backends []string, previous []
 	}()
 
 	return nodes.nodeBackends, nodes.assignedBackends, panicked
+}
+
+// ---- a running cluster: several daemons of this process, each with an http listener, configured as nodes of one cluster ----
+
+var (
+	verifHeartbeat    = 3
+	verifNodeInterval = 10
+)
+
+// verifHeartbeatTimeout / verifNodeLoopInterval replace the defaults of Nodes.Initialize in the harness build (see
+// CLOCK_PATCHES): the harness triggers the availability checks itself and does not want to wait 3 s for every node that is down.
+func verifHeartbeatTimeout() int  { return verifHeartbeat }
+func verifNodeLoopInterval() int  { return verifNodeInterval }
+func VerifSetNodeTiming(heartbeat, interval int) {
+	verifHeartbeat, verifNodeInterval = heartbeat, interval
+}
+
+// VerifStartNode starts a daemon as mainLoop does, as one node of a cluster: listen is its own http address, nodes are the
+// addresses of all nodes.  initializePeers creates the node accessor and runs the first availability check.
+func VerifStartNode(cfg *VerifConfig, conns []VerifConn, listen string, nodes []string) *VerifInstance {
+	inst := verifNewDaemon(cfg, nil, false)
+	inst.Lmd.Config.Connections = verifConnections(conns)
+	inst.Lmd.Config.Listen = []string{listen}
+	inst.Lmd.Config.Nodes = nodes
+	inst.verifMainLoopHead()
+
+	return inst
+}
+
+// VerifNodeCheck runs one round of Nodes.checkNodeAvailability (what the node loop does every 10 s).
+func (inst *VerifInstance) VerifNodeCheck() (panicked string) {
+	defer func() {
+		if r := recover(); r != nil {
+			panicked = fmt.Sprintf("%v", r)
+		}
+	}()
+	inst.Lmd.nodeAccessor.checkNodeAvailability(context.Background())
+
+	return ""
+}
+
+// VerifNodeForget closes the idle connections this node keeps to its partners: a partner process that ended would have
+// closed them.
+func (inst *VerifInstance) VerifNodeForget() {
+	if inst.Lmd.nodeAccessor != nil && inst.Lmd.nodeAccessor.httpClient != nil {
+		inst.Lmd.nodeAccessor.httpClient.CloseIdleConnections()
+	}
+}
+
+// VerifNodeState is the cluster bookkeeping of one node, with node ids translated to positions in the node list.
+type VerifNodeState struct {
+	Own          int              `json:"own"`
+	Online       []int            `json:"online"`
+	NodeBackends map[string][]string `json:"node_backends"` // position (or "?id" for an id no address carries) -> backends
+	Assigned     []string         `json:"assigned"`
+	Peers        []VerifDaemonPeer `json:"peers"`
+}
+
+func (inst *VerifInstance) VerifNodeState() *VerifNodeState {
+	n := inst.Lmd.nodeAccessor
+	st := &VerifNodeState{Own: -1, NodeBackends: map[string][]string{}}
+	n.lock.RLock()
+	for i, a := range n.nodeAddresses {
+		if a.isMe {
+			st.Own = i
+		}
+		for _, o := range n.onlineNodes {
+			if o.url == a.url {
+				st.Online = append(st.Online, i)
+			}
+		}
+	}
+	n.lock.RUnlock()
+	for id, list := range n.nodeBackends {
+		key := "?" + id
+		for i, a := range n.nodeAddresses {
+			if a.id == id {
+				key = fmt.Sprintf("%d", i)
+			}
+		}
+		st.NodeBackends[key] = append([]string{}, list...)
+	}
+	st.Assigned = append([]string{}, n.assignedBackends...)
+	st.Peers, _ = inst.VerifDaemonState()
+
+	return st
+}
+
+// VerifNodeSettle waits until every backend assigned to this node has finished (or failed) its initial synchronisation.
+func (inst *VerifInstance) VerifNodeSettle(timeout time.Duration) bool {
+	deadline := time.Now().Add(timeout)
+	for time.Now().Before(deadline) {
+		busy := false
+		assigned := inst.Lmd.nodeAccessor.assignedBackends
+		inst.Lmd.PeerMapLock.RLock()
+		for _, id := range assigned {
+			p := inst.Lmd.PeerMap[id]
+			if p == nil {
+				continue
+			}
+			st := p.peerState.Get()
+			if p.paused.Load() || st == PeerStatusPending || st == PeerStatusSyncing {
+				busy = true
+			}
+		}
+		inst.Lmd.PeerMapLock.RUnlock()
+		if !busy {
+			return true
+		}
+		time.Sleep(20 * time.Millisecond)
+	}
+
+	return false
 }
